@@ -21,7 +21,7 @@ ApplyChg(pre, chg) == [i \in 1 .. Len(pre) |->
 
 Start(rec) == [r |-> Unpack(rec.pre), mem |-> Oracle(rec.acc), io |-> IoOracle(rec.acc), acc |-> <<>>, out |-> "ok", idle |-> FALSE,
                lat |-> <<rec.lat[1], rec.lat[2], rec.lat[3], rec.lat[4]>>, vaddr |-> rec.lat[5] * 65536 + rec.lat[6],
-               vctx |-> rec.lat[7], miu |-> [base |-> 32768, z |-> 0]]
+               vctx |-> rec.lat[7], miu |-> MiuReset]
 
 \* records the specification declines to decide (with the reason), counted by the runner
 Undecided(rec) ==
